@@ -25,6 +25,8 @@ static double pattern_value(int pat, int i, int j)
 		case 0: return (double)((i * 7 + j * 3) % 19 - 9);									 // small integers incl. zero and negatives
 		case 1: { int e = -300 + 25 * ((i * 5 + j * 11) % 25); long m = 100000 + ((i * 7919L + j * 104729L + 31) % 900000); char buf[64]; snprintf(buf, sizeof buf, "%s%ldE%d", ((i + j) % 3 == 0 ? "-" : ""), m, e - 5); return strtod(buf, nullptr); }	// the double nearest to the six-digit decimal	 // six-digit decimals over 600 decades
 		case 2: return ((i + j) % 4 == 0) ? 0.0 : 1.0 / (1 + i + 2 * j);						 // fractions with more than six digits
+		// the widest text a value can take: negative, six digits, three-digit negative exponent (14 characters per entry)
+		case 4: { int e = -100 - ((i * 5 + j * 11) % 190); long m = 100000 + ((i * 7919L + j * 104729L + 77) % 900000); if(m % 10 == 0) m += 1; char buf[64]; snprintf(buf, sizeof buf, "-%ldE%d", m, e - 5); return strtod(buf, nullptr); }
 		default: return (i % 2 ? -1 : 1) * std::ldexp(1.0 + (j % 5) * 0.125, (i * 13 + j * 7) % 200 - 100);
 	}
 }
@@ -45,8 +47,8 @@ static void tables(unsigned long long& unit)
 	const std::vector<std::string> headers = {"", "# one header line", "# first\n# second line of three\n# x\ty\tz", "# top\n\n# after a blank line", "# top\n \t \n# after a whitespace line", " ", "# 3 columns 12 rows 1e5 -7"};
 	const int hlines[] = {0, 1, 3, 3, 3, 1, 1};
 	for(int rows : {1, 2, 3, 7, 200})
-		for(int cols : {1, 2, 5, 12})
-			for(int pat = 0; pat < 4; pat++)
+		for(int cols : {1, 2, 5, 12, 40})
+			for(int pat = 0; pat < 5; pat++)
 				for(int h = 0; h < (int)headers.size(); h++)
 					for(int ua = 0; ua < 3; ua++)
 					{
